@@ -118,7 +118,9 @@ def gen_workload(rng, tier):
     w = {"op": op, "allow_changes": rng.random() < 0.4, "defect": None, "kwargs": {},
          "target_pre": PRE if rng.random() < 0.6 else None,
          "knobs": {"buffer_size": rng.choice([1, 16, 128, 1024, 8192, 8192, 65536]),
-                   "chunk_size": rng.choice([None, None, 64, 1024])}}
+                   "chunk_size": rng.choice([None, None, 64, 1024]),
+                   # environment knob: the caller runs with warnings promoted to errors (python -W error)
+                   "warnings": "error" if rng.random() < 0.12 else "always"}}
     sel = rng.choices(["name", "explicit", "unknown", "unsupported"], [5, 4, 1, 1])[0]
     if op == "write_input":
         w["fmt"] = rng.choice(["gaussian", "orca"])
@@ -334,8 +336,9 @@ def run_once(w, faults, budget=None):
                 missing.append((j, miss))
     tracker_box = []
     rec = {"exc": None, "result_is_arg": None, "warnings": [], "steps": 0}
+    werr = knobs.get("warnings") == "error"
     with seams.Installed(disk), warnings.catch_warnings(record=True) as wlist, Steps(budget) as st:
-        warnings.simplefilter("always")
+        warnings.simplefilter("error" if werr else "always")
         try:
             result = _call(w, objs, disk, tracker_box)
             rec["result_is_arg"] = bool(objs) and result is objs[0]
@@ -385,6 +388,18 @@ def judge(trace, rec, base):
 
     if isinstance(exc, StepBudgetExceeded):
         out.append(_v("liveness", f"step budget exceeded: {exc}", trace))
+        return out
+    if (w.get("knobs") or {}).get("warnings") == "error":
+        # Warnings are errors in this run: a warning raised inside iodata is just another failure, so which
+        # calls fail is not judged - only that nothing but the contract's exception types escapes, that a
+        # pre-flight error spares the target and that the file is closed.
+        if exc is not None and et not in ("PrepareDumpError", "DumpError", "FileFormatError", "WriteInputError", "CallerFault"):
+            out.append(_v("wrong_exception", f"with warnings as errors {et} escaped from {op}: {exc}", trace, f"werror/{et}"))
+        if et in ("PrepareDumpError", "FileFormatError") and op != "write_input" and not (op == "dump_many" and rec["open_events"] and len(w["objs"]) > 1) \
+                and (rec["open_events"] != 0 or rec["bytes"] != pre_b):
+            out.append(_v("touched_before_error", f"with warnings as errors: {et} but the target was opened/changed", trace, "werror"))
+        if rec["handles_open"]:
+            out.append(_v("handle_leak", f"{rec['handles_open']} handle(s) still open after {op} ({et})", trace))
         return out
     if exc is not None and not isinstance(exc, Exception):
         out.append(_v("base_exception", f"{et}: {exc}", trace))
